@@ -80,8 +80,10 @@ def generate(rng, tier):
         tau = rng.choice([500, 1000, 2000])
         size = rng.choice([100000, 200000, 1000000])
         at = rng.choice([2, 5, 10, 12, 15, 18, 20, 22, 25, 28])
-        cases.append(['case %d sim' % (base + k), 'runbig %d %d %s %d' % (tau, size, rng.choice('HP'), at), 'end'])
+        # one in three: the large answer is an ERROR status (400 + a Status frame of that size), read by another branch of the client
+        cases.append(['case %d sim' % (base + k), 'runbig %d %d %s %d%s' % (tau, size, rng.choice('HP'), at, ' err' if k % 3 == 2 else ''), 'end'])
     cases.append(['case %d sim' % (base + nb), 'runbig 2000 1000 - 0', 'end'])
+    cases.append(['case %d sim' % (base + nb + 1), 'runbig 2000 1000 - 0 err', 'end'])
     # concurrent requests that DEPEND on each other, on one channel and a healthy network (the empty fault schedule): long polls
     # which are answered once a later request has been handled.  Each request travels on its own HTTP/2 stream, so all of them
     # return; a channel that carries one request at a time (D31) leaves them pending for ever, with no fault at all.
